@@ -32,6 +32,9 @@ CFG = DC.Config("C01", D.ALL_KINDS, make_cmds, nsets=(9, 24), big=True,
 
 CFG.fm_text_residues = [31, 0, 1, 30, 63 % 32, 15, 31]
 
+# three-byte VByte inside the Re-Pair stream (shared prefix of 16384 bytes): witness of the recorded finding rp-front-coding-lcp-ge-16384;
+# PFC answers it correctly
+CFG.extra_sets = [(("PFC", "RPFC"), "lcp16384", sorted([b"a", b"k" * 16384 + b"b", b"k" * 16384 + b"c", b"z"]), ["4"])]
 CFG.probe = True   # regenerated obligations on the probe arithmetic widths + large nearly-full tables
 
 
